@@ -2,6 +2,7 @@ import MW.Inv.GReach
 import MW.Inv.WorldInv
 import MW.Inv.Demo
 import MW.Inv.WorldStaker
+import MW.Staking.Interface
 /-!
 # C01 — Staked-asset accounting is fully backed
 
@@ -244,5 +245,15 @@ end Demo
 
 /-- non-vacuity: totals 0/0, a stake of 1000 forwards 1000 and the equation reads 1000 = 1000 -/
 example : (1000 : Int) + 0 + 0 = 1000 + 0 := by decide
+
+/-- the statements of this file quantify over every message the staking contract accepts: the `ExecuteMsg` the source
+declares (table regenerated from /repo's `msg.rs` on every run) has exactly the variants, fields and types of the
+model's `ExecMsg`, and the contract exports exactly the modelled entry points.  A message or entry point added to the
+source — which no generated history would exercise — breaks this theorem -/
+theorem messages_are_the_modelled_ones :
+    MW.Generated.Interface.staking_execute = MW.Interface.model_staking_execute
+    ∧ (∀ m : MW.Staking.ExecMsg, MW.Interface.execTag m ∈ MW.Interface.names MW.Generated.Interface.staking_execute)
+    ∧ MW.Generated.Interface.staking_entry_points = ["execute", "instantiate", "migrate", "query", "reply", "sudo"] :=
+  ⟨MW.Interface.staking_execute_eq, MW.Interface.staking_execute_covered.2, MW.Interface.staking_entry_points_eq⟩
 
 end MW.Props.C01
